@@ -869,7 +869,9 @@ pub(crate) mod verif_hooks {
 
     /// [`Placeholder::parse_fmt_string`] as plain data: `Ok(index)` / `Err(name)`, modifiers
     /// flag and trait name.
-    pub(crate) fn placeholders(s: &str) -> Vec<(Result<usize, String>, bool, &'static str)> {
+    pub(crate) fn placeholders(
+        s: &str,
+    ) -> Vec<(Result<usize, String>, bool, &'static str)> {
         Placeholder::parse_fmt_string(s)
             .into_iter()
             .map(|p| {
